@@ -255,8 +255,13 @@ class Machine:
     # ------------------------------------------------------------ places
     def place_ref(self, fr, toks):
         cont, key = fr.locals, toks[0][1]
+        if key not in cont:
+            # zero-sized locals (capture-less closures, fn items, unit structs) are never assigned in MIR
+            ty = fr.fn.locals.get(key)
+            if ty is not None and len(toks) == 1 and (ty.startswith("{") or ty.endswith("}") or ty == "()"):
+                cont[key] = self.zst(ty)
         variant = None
-        wrapper = False        # the place reached so far has a transparent wrapper type (MaybeUninit, ManuallyDrop, ...)
+        wrapper = False       # the place reached so far has a transparent wrapper type (MaybeUninit, ManuallyDrop, ...)
         for t in toks[1:]:
             cur = cont[key]
             k = t[0]
@@ -336,12 +341,26 @@ class Machine:
             return VecObj(list(b))
         if k == "zst":
             return self.zst(c[1])
+        if k == "strlit":
+            return Str(c[1])
+        if k == "allocref":
+            b = self.mod.allocs.get(c[1])
+            if b is None: raise Unsupported("allocation not dumped: " + c[1])
+            if "[u8;" in c[2] or c[2].endswith("[u8]"): return VecObj(list(b))
+            if c[2].endswith("str"): return Str(b.decode("utf8", "replace"))
+            raise Unsupported(f"constant allocation of type {c[2]}")
         if k == "named":
             return self.eval_named_const(c[1], fr)
         raise Unsupported(f"const {c}")
 
     def zst(self, ty):
-        """build the unique value of a zero-sized type from its printed type"""
+        """build the unique value of a zero-sized type from its printed type (cached: the values are stateless)"""
+        c = self.world.zst_cache.get(ty)
+        if c is None:
+            c = self.world.zst_cache[ty] = self._zst(ty)
+        return copy_val(c) if isinstance(c, Agg) else c
+
+    def _zst(self, ty):
         ty = ty.strip()
         if ty == "()": return UNIT
         if ty.startswith("(") and match_close(ty, 0) == len(ty) - 1:
@@ -899,11 +918,16 @@ class Machine:
             _, dest, callee, args, ret = t
             argv = [self.operand(fr, a) for a in args]
             if callee[0] == "const" and callee[1][0] == "zst":
-                ty = callee[1][1]
-                i = match_open_back(ty, len(ty) - 1)
-                path = ty[i + 1:-1]
-                last = strip_generics(path).split("::")[-1]
-                if last in PANIC_FNS and ("panic" in path or "core::" in path or "std::" in path or "alloc::" in path or "option" in path or "result" in path or "slice" in path):
+                tc = self.world.term_cache.get(id(t))
+                if tc is None:
+                    ty = callee[1][1]
+                    i = match_open_back(ty, len(ty) - 1)
+                    path = ty[i + 1:-1]
+                    last = strip_generics(path).split("::")[-1]
+                    is_panic = last in PANIC_FNS and ("panic" in path or "core::" in path or "std::" in path or "alloc::" in path or "option" in path or "result" in path or "slice" in path)
+                    tc = self.world.term_cache[id(t)] = (path, is_panic, t)
+                path, is_panic = tc[0], tc[1]
+                if is_panic:
                     self.finding("panic:" + strip_generics(path), fr.fn.name); raise Panic(path)
                 if self.trace_calls is not None: self.trace_calls.append(path[:160])
                 v = self.call_path(path, argv, fr)
